@@ -394,12 +394,11 @@ fn body_case(
 
 fn json_coq(ct: &Option<Vec<u8>>, body: &[u8], framing: &Framing) -> String {
     format!(
-        "{} {} {} {} {} None",
+        "{} {} {} {} None",
         g_hdr(ct),
         CAP,
         g_list(&frames_of(body, framing), |f| g_bytes(f)),
-        g_opt(&bj_oracle(body), |s| g_struct(s)),
-        bj_strict(body)
+        g_opt(&bj_oracle(body), |s| g_struct(s))
     )
 }
 
